@@ -315,7 +315,7 @@ func main() {
 		}
 		r.Extra("shapes", len(shapes))
 		r.Extra("fault_runs", idx)
-		r.Floor(int64(r.Pick(300, 3000)), int64(r.Pick(300, 3000)))
+		r.Floor(int64(r.Pick(300, 2000)), int64(r.Pick(300, 2000)))
 	})
 }
 
